@@ -15,11 +15,11 @@ C13_REQUIRED = ["refund_plain", "refund_in", "refund_out", "refund_many", "claim
 HTLC_GEN_CFG = "compress=50,period=100,users=2,initbal=5"
 
 HTLC_RND = T(
-    [dict(n=8, len=40, procs=6, cfg="users=2"),
-     dict(n=8, len=40, procs=6, cfg="users=3,limit1=6,limit2=6,tbl2=4,period=60,initbal=6")],
+    [dict(n=6, len=40, procs=6, cfg="users=2"),
+     dict(n=6, len=40, procs=6, cfg="users=3,limit1=6,limit2=6,tbl2=4,period=60,initbal=6")],
     [dict(n=60, len=50, procs=7, cfg="users=2"),
      dict(n=60, len=50, procs=7, cfg="users=3,limit1=6,limit2=6,tbl2=4,period=60,initbal=6")])
-HTLC_GEN = T([dict(cfg="GEN_HTLC.cfg", num=8, depth=26, seeds=10)],
+HTLC_GEN = T([dict(cfg="GEN_HTLC.cfg", num=8, depth=26, seeds=8)],
              [dict(cfg="GEN_HTLC.cfg", num=40, depth=30, seeds=14)])
 HTLC_SCN = [dict(file="scenarios/htlc_boundary.ndjson", cfg="users=2"),
             dict(file="scenarios/htlc_limits.ndjson", cfg="users=2"),
@@ -27,7 +27,7 @@ HTLC_SCN = [dict(file="scenarios/htlc_boundary.ndjson", cfg="users=2"),
 HTLC_MC = T([dict(cfg="MC_HTLC.cfg", timeout=900), dict(cfg="MC_HTLC_assets.cfg", timeout=900),
              dict(cfg="MC_HTLC_window.cfg", timeout=900)],
             [dict(cfg="MC_HTLC_big.cfg", timeout=3000), dict(cfg="MC_HTLC_assets_big.cfg", timeout=3000),
-             dict(cfg="MC_HTLC_window.cfg", timeout=900)])
+             dict(cfg="MC_HTLC_window_big.cfg", timeout=3000)])
 
 HTLC_ASSUME = ["TLC 1.8, SANY, CommunityModules Json", "Go toolchain, cosmos-sdk x/bank, x/auth",
                "harness projection functions",
